@@ -281,13 +281,82 @@ CONSUMERS = re.compile(
 
 REVIEWED_LOOPS = {
     # key -> reason
-    "spec::CentralDirectoryEnd::find_and_parse|loop1|parse,read_u32,seek":
-        "backward search: pos strictly decreases (checked_sub(1), None => break) and is bounded below by search_upper_bound",
-    "spec::Zip64CentralDirectoryEnd::find_and_parse|loop1|read_u16,read_u32,read_u64,seek":
-        "forward search: pos += 1 per iteration, bounded by search_upper_bound <= cde_pos - 60",
     "<aes_ctr::AesCtrZipKeyStream<C> as aes_ctr::AesCipher>::crypt_in_place|loop1|xor":
         "target shrinks by target_len = min(len, 16 - pos) >= 1 per iteration (pos < 16 after the refill)",
 }
+
+
+def _src_local(f, bb, op):
+    """the user variable an operand is a (possibly temporary-mediated) copy of, within block bb; None if it is something else"""
+    seen = 0
+    while op is not None and op["k"] != "const" and not op["place"]["p"] and seen < 6:
+        l = op["place"]["l"]
+        if f.locals[l].get("name"):
+            return l
+        nxt = None
+        for s in reversed(f.blocks[bb]["stmts"]):
+            if s["k"] == "assign" and s["place"]["l"] == l and not s["place"]["p"] and s["rv"]["k"] == "use":
+                nxt = s["rv"]["op"]
+                break
+        op = nxt
+        seen += 1
+    return None
+
+
+def monotone_counter(f, ex, header, body, backs):
+    """P3: a user variable that strictly moves in one direction on every trip round the loop:
+       DEC  every update in the loop is x = x.checked_sub(c)? / x - c with c >= 1 (a natural number cannot fall for ever);
+       INC  every update is x = x + c with c >= 1, and a test `x <= / < bound` with a loop-invariant bound leaves the loop.
+    The update must lie on every path back to the header.  -> (kind, variable name) or None"""
+    dom = f.dominators()
+    cands = {}
+    for b in sorted(body):
+        for si, s in enumerate(f.blocks[b]["stmts"]):
+            if s["k"] == "assign" and not s["place"]["p"] and f.locals[s["place"]["l"]].get("name"):
+                cands.setdefault(s["place"]["l"], []).append((b, si, s))
+    for l, ups in cands.items():
+        kinds = set()
+        for b, si, s in ups:
+            e = norm(ex.rvalue(s["rv"], (b, si)))
+            k = None
+            if e[0] == "ok" and e[1][0] == "call" and e[1][1].endswith("checked_sub") and e[1][2][1][0] == "const" and isinstance(e[1][2][1][2], int) and e[1][2][1][2] >= 1:
+                # the receiver is the counter itself
+                cb = e[1][4] if len(e[1]) > 4 else None
+                t = f.term(cb) if cb is not None else None
+                if t and t["k"] == "call" and _src_local(f, cb, t["args"][0]) == l:
+                    k = "DEC"
+            elif e[0] == "bin" and e[1] in ("Sub", "Add") and e[3][0] == "const" and isinstance(e[3][2], int) and e[3][2] >= 1:
+                # x = x -/+ c : find the arithmetic statement feeding this assignment
+                srcs = [s2 for b2 in body for s2 in f.blocks[b2]["stmts"] if s2["k"] == "assign" and s2["rv"]["k"] == "binop" and
+                        s2["rv"]["op"].replace("WithOverflow", "") == e[1] and _src_local(f, b2, s2["rv"]["a"]) == l and s2["rv"]["b"]["k"] == "const"]
+                if srcs:
+                    k = "DEC" if e[1] == "Sub" else "INC"
+            kinds.add(k)
+        if len(kinds) != 1 or None in kinds:
+            continue
+        kind = kinds.pop()
+        if not any(all(b in dom[t] for t in backs) for b, si, s in ups):
+            continue        # some way round the loop skips the update
+        if kind == "DEC":
+            return kind, f.locals[l]["name"]
+        # INC needs the bounded exit test
+        assigned = {s["place"]["l"] for b2 in body for s in f.blocks[b2]["stmts"] if s["k"] == "assign" and not s["place"]["p"]}
+        for sb in sorted(body):
+            st = f.term(sb)
+            if not st or st["k"] != "switch" or all(x in body for x in f.succ(sb)):
+                continue
+            dl = st["discr"]["place"]["l"] if st["discr"]["k"] != "const" and not st["discr"]["place"]["p"] else None
+            for s2 in f.blocks[sb]["stmts"]:
+                if s2["k"] == "assign" and s2["place"]["l"] == dl and s2["rv"]["k"] == "binop" and s2["rv"]["op"] in ("Le", "Lt", "Ge", "Gt"):
+                    a, b_ = s2["rv"]["a"], s2["rv"]["b"]
+                    la, lb = _src_local(f, sb, a), _src_local(f, sb, b_)
+                    other = b_ if la == l else a if lb == l else None
+                    if other is None:
+                        continue
+                    ol = _src_local(f, sb, other) if other["k"] != "const" else -1
+                    if other["k"] == "const" or (ol is not None and ol not in assigned):
+                        return kind, f.locals[l]["name"]
+    return None
 
 
 def _is_len(e):
@@ -342,9 +411,26 @@ def rule_loop(facts, rep, reach):
                             verdict = ("iterator", "range bounded by the length of an in-memory collection (%s)" % show(ends[0]))
                         else:
                             verdict = ("range", ga)
-            # P2 consumes-or-exits
+            # P3 strictly monotone counter
+            mono = monotone_counter(f, ex, header, body, backs)
+            # P2 consumes-or-exits -- meaningless in a loop that repositions the stream (it can read the same bytes for ever)
+            seeks = False
+            for b in sorted(body):
+                tb = f.term(b)
+                if not (tb and tb["k"] == "call" and callee_matches(tb, r"io::Seek::seek$|Seek::rewind$|seek_relative$")):
+                    continue
+                # a relative seek by a provably positive amount only skips forward: consumption still measures progress
+                fwd = False
+                if callee_matches(tb, r"io::Seek::seek$") and len(tb["args"]) == 2:
+                    a = norm(ex.operand(tb["args"][1], (b, None)))
+                    if a[0] == "agg" and a[1] == "adt:Current" and a[3]:
+                        fs = [x for x in dominating_facts(f, ex, b) if x[0] != "truth"]
+                        r = Intervals({}, fs, argtys_of(f)).range_of(a[3][0][1], "i64")
+                        fwd = r[0] >= 0
+                if not fwd:
+                    seeks = True
             consume = None
-            for b in must:
+            for b in ([] if seeks else must):
                 t = f.term(b)
                 if t and t["k"] == "call" and callee_matches(t, CONSUMERS.pattern):
                     # the call's result must be able to leave the loop: some switch in the loop depending on it has a
@@ -365,6 +451,10 @@ def rule_loop(facts, rep, reach):
                 nm = consume[1]["callee"].split("::")[-1]
                 rep.ok(rule, key, w, "every iteration consumes from the stream through %s, whose failure/end leaves the loop%s"
                        % (nm, " (range bound from input is therefore harmless)" if verdict else ""))
+            elif mono:
+                rep.ok(rule, key, w, "the counter `%s` moves strictly %s on every iteration%s" % (
+                    mono[1], "down (a natural number cannot fall for ever)" if mono[0] == "DEC" else "up towards a loop-invariant bound that ends the loop",
+                    "; the loop repositions the stream, so consuming input proves nothing here" if seeks else ""))
             elif key in REVIEWED_LOOPS:
                 rep.reviewed(rule, key, w, "reviewed: " + REVIEWED_LOOPS[key])
             elif verdict and verdict[0] == "range":
